@@ -34,6 +34,22 @@ def hat_field(X, G):
     return f
 
 
+def min_crossing(G):
+    """smallest relative distance of a sign change from a node, over all pairs of corners of a cell of the nodal grid (edges and
+    diagonals): min |a| / (|a| + |b|) over pairs with a*b < 0; 1 if there is no sign change"""
+    nd = G.ndim
+    best = 1.
+    offs = list(itertools.product([0, 1], repeat=nd))
+    for o1, o2 in itertools.combinations(offs, 2):
+        A = G[tuple(slice(o, G.shape[k] - 1 + o) for k, o in enumerate(o1))]
+        B = G[tuple(slice(o, G.shape[k] - 1 + o) for k, o in enumerate(o2))]
+        m = A * B < 0
+        if m.any():
+            a = numpy.abs(A[m]); b = numpy.abs(B[m])
+            best = min(best, float((numpy.minimum(a, b) / (a + b)).min()))
+    return best
+
+
 def nodal_field(rng, fshape, per, step):
     """random integer nodal values on a vertex grid of shape `fshape`; `step` = number of fine intervals per coarse element.
     returns (G, description)"""
@@ -120,8 +136,10 @@ def face_identities(topo, x, periodic, deg=2):
     ra = alle.integrate([J, ind * (x @ n) * J], degree=deg)
     out += [('closed', float(numpy.abs(rb[2]).max())),
             ('element-divergence', float(numpy.abs(lhs - rhs).max())),
-            ('element-references-closed', float(numpy.abs(lhs - ra[1]).max())),      # each element reference by itself is a closed cell
             ('perimeter', float(ra[0]) - float(rb[1]) - 2 * imeas)]
+    if nd > 1:      # each element reference by itself is a closed cell (in 1-D the orientation of point edges is not available on this
+        #             artificial all-edges topology: UniformDerivedTransforms treats the 1x0 linear parts as constant)
+        out.append(('element-references-closed', float(numpy.abs(lhs - ra[1]).max())))
     return out, dict(n=len(topo), nb=len(b), ni=len(i), bmeas=float(rb[1]), imeas=imeas)
 
 
@@ -149,10 +167,16 @@ def _trimnodal_case(seed, quick):
         nd = 2; n = rng.randint(1, 3) if mkind == 'triangle' else rng.randint(2, 3)
         shape = [n, n]; per = []; scale = n
     mr = (rng.choice([0, 1, 1, 1, 2, 2]) if nd < 3 else rng.choice([0, 1, 1])) if mkind == 'rect' else rng.choice([1, 1, 2])
-    ndiv = rng.choice([8, 8, 8, 4, 2, 1])
     step = 2**mr
     fshape = [m * step + 1 for m in shape]
-    G, gdesc = nodal_field(rng, fshape, per, step)
+    while True:
+        G, gdesc = nodal_field(rng, fshape, per, step)
+        # the binning of cut positions (2^ndivisions bins per leaf edge) must not round a cut onto a vertex: that is the domain of the
+        # separately probed finding `trim:coarse-ndivisions:boundary-not-closed`; exact zeros AT nodes are what this stream is about
+        xi = min_crossing(G)
+        ndivs = [nv for nv in (8, 8, 8, 6, 4, 3, 2, 1) if xi * 2**nv >= 1]
+        if ndivs: break
+    ndiv = rng.choice(ndivs)
     desc = dict(stream='trimnodal', seed=seed, mesh=mkind, shape=shape, periodic=per, maxrefine=mr, ndivisions=ndiv, field=gdesc, nodal=G.astype(int).tolist())
     rec['desc'] = desc
     rec['key'] = (mkind, tuple(shape), tuple(per), mr, ndiv, G.astype(int).tobytes())
